@@ -175,3 +175,6 @@ Fixpoint fs_read (fs : fsmap) (p : list Z) : option (list Z) :=
   | [] => None
   | (q, c) :: r => if zeqb_list p q then Some c else fs_read r p
   end.
+
+(* ---- what a CLI action does to the file system, in order ---- *)
+Inductive effect := WriteFile (path : list Z) (content : list Z) | MkDir (path : list Z).
